@@ -95,11 +95,19 @@ def make_replay(fn_name, h, argspec, outcome, ex, self_obj):
         pool = Pool()
         m = concrete_map(model, h, pool)
         args, kwargs, shown = [], {}, {}
+        extra_maps = []
         for kw, val in argspec:
             if isinstance(val, Dyn):
                 c = concrete_dyn(model, val, pool)
             elif isinstance(val, z3.ExprRef):
                 c = ev(model, val)
+            elif isinstance(val, tuple) and val and val[0] == "MAP":
+                c = concrete_map(model, val[1], pool)
+                extra_maps.append((c, val[1], val[2]))
+            elif isinstance(val, tuple) and val and val[0] == "NAMEDYN":
+                # names are opaque to the engine (validity/availability are uninterpreted facts): None stays None,
+                # anything else is replayed as a valid, unused name
+                c = None if ev(model, val[1].tag) == T_NONE else "replay_name"
             elif val == "NAME":
                 c = "replay_name"
             else:
@@ -136,6 +144,9 @@ def make_replay(fn_name, h, argspec, outcome, ex, self_obj):
         pred_after = {"next_addr": ev(model, ex.getattr(self_obj, "_next_addr", p, None)[0][0]),
                       "frozen": bool(ev(model, ex.getattr(self_obj, "_frozen", p, None)[0][0])),
                       "ranges": [(ev(model, v1.S[i]), ev(model, v1.E[i]), ev(model, v1.T[i])) for i in range(n1)] if n1 is not None and n1 <= 64 else None}
+        for cm, hh, obj in extra_maps:
+            after[f"{obj.name}.frozen"] = cm._frozen
+            pred_after[f"{obj.name}.frozen"] = bool(ev(model, ex.getattr(obj, "_frozen", p, None)[0][0]))
         agree = (got["kind"] == pred["kind"] and (got.get("exc") == pred.get("exc")) and
                  (got["kind"] == "raise" or got["value"] == pred["value"]) and after == pred_after)
         return agree, {"confirmed": agree,
@@ -145,4 +156,23 @@ def make_replay(fn_name, h, argspec, outcome, ex, self_obj):
                        "state_before": before, "call": {"function": fn_name, "arguments": shown},
                        "real_outcome": got, "state_after": after,
                        "engine_prediction": pred, "engine_predicted_state_after": pred_after}
+    return replay
+
+
+def make_static_replay(call, params, outcome, ex):
+    """replay for a pure function of integers: call(*ints) on the real code vs. the engine's predicted result"""
+    def replay(model):
+        vals = [ev(model, p) for p in params]
+        try:
+            got = {"kind": "return", "value": call(*vals)}
+        except Exception as e:
+            got = {"kind": "raise", "exc": type(e).__name__}
+        pred = {"kind": outcome.kind}
+        if outcome.kind == "raise":
+            pred["exc"] = outcome.exc
+        else:
+            pred["value"] = ev(model, ex.toint(outcome.value))
+        agree = got == pred
+        return agree, {"confirmed": agree, "how": "real function called with the counter-model's arguments; result compared with the "
+                       "engine's prediction for this path", "arguments": vals, "real_outcome": got, "engine_prediction": pred}
     return replay
